@@ -272,7 +272,7 @@ func RunRefDeal(c RefDealCase) (res RefDealResult) {
 			return
 		}
 	}
-	if byzantine && c.Relation != "two-answers-before-vector" { // the shares must really be off the committed polynomial at every real receiver
+	if byzantine && c.Relation != "two-answers-before-vector" && c.Relation != "answer-complaint-vector" { // the shares must really be off the committed polynomial at every real receiver
 		for _, m := range real {
 			if sharePoly.eval(int64(m+1)).Cmp(poly.eval(int64(m+1))) == 0 {
 				return
@@ -313,6 +313,9 @@ func RunRefDeal(c RefDealCase) (res RefDealResult) {
 		}
 		cst[0] = new(big.Int).Set(poly.coef[0])
 		sharePoly = refPoly{cst}
+	}
+	if c.Relation == "answer-complaint-vector" {
+		sharePoly = poly
 	}
 	wrongAnswerTo := -1
 	if c.Relation == "two-answers-before-vector" {
@@ -378,7 +381,35 @@ func RunRefDeal(c RefDealCase) (res RefDealResult) {
 			}
 		}
 	}
-	if c.Relation == "two-answers-before-vector" {
+	if c.Relation == "answer-complaint-vector" {
+		// one receiver gets a malformed share and complains; every OTHER receiver sees the dealer's (wrong) answer to that complaint
+		// first, then the complaint, then the vector: an answer stored before its complaint, checked when the vector arrives
+		if len(real) < 2 {
+			return
+		}
+		p1 := real[0]
+		hand(p1, c.Dealer, false, append([]byte{0}, make([]byte, 31)...))
+		em, _ := procs[p1].take()
+		var complaint []byte
+		for _, e := range em {
+			if e.bcast && len(e.data) == 2 && e.data[0] == 2 {
+				complaint = e.data
+			}
+		}
+		if complaint == nil {
+			add("C08", "BadDealerDisqualified", fmt.Sprintf("participant %d does not complain about a malformed share", p1))
+			return
+		}
+		wrong := append([]byte{3, byte(p1)}, scalar32(new(big.Int).Mod(new(big.Int).Add(poly.eval(int64(p1+1)), big.NewInt(1)), ref.R))...)
+		for _, o := range real[1:] {
+			hand(o, c.Dealer, true, wrong)
+			hand(o, p1, true, complaint)
+			hand(o, c.Dealer, true, vectors[c.Dealer])
+			hand(o, c.Dealer, false, poly.shareMsg(o))
+		}
+		hand(p1, c.Dealer, true, wrong)
+		hand(p1, c.Dealer, true, vectors[c.Dealer])
+	} else if c.Relation == "two-answers-before-vector" {
 		for _, m := range real[:2] {
 			hand(m, c.Dealer, false, append([]byte{0}, make([]byte, 31)...)) // a share of the wrong length
 		}
